@@ -16,7 +16,7 @@ ASSUMPTIONS = ['trees whose names leave the route alphabet, or whose files have 
                'the file-system walk is an input of the model']
 MIME = {'txt': 'text/plain', 'html': 'text/html', 'css': 'text/css', 'js': 'text/javascript', 'xml': 'text/xml', 'csv': 'text/csv', 'tsv': 'text/tab-separated-values', 'vcard': 'text/vcard',
         'jpeg': 'image/jpeg', 'gif': 'image/gif', 'png': 'image/png', 'svg': 'image/svg+xml', 'woff': 'font/woff', 'woff2': 'font/woff2', 'json': 'application/json', 'pdf': 'application/pdf'}
-NAMES = ['a', 'b', 'index', 'main', 'app.min', 'x-y', 'x_y', 'a1', 'data', 'docs', 'search-index', 'myindex', 'index.html']      # names that merely end in / start with index.html are ordinary files
+NAMES = ['a', 'b', 'index', 'main', 'app.min', 'x-y', 'x_y', 'a1', 'data', 'docs', 'search-index', 'myindex', 'index.html', 'notes.txt', 'lib.js', 'page.html', 'conf.json', 'style.css']      # a stem may itself end in an extension of the omit list: one extension is taken off, once      # names that merely end in / start with index.html are ordinary files
 DIRS = ['sub', 'deep', 'assets', 'docs', 'v1.2', 'a', 'v1.js', 'site.html', 'x.css']          # a directory may be named like a file with an omitted extension
 
 
@@ -98,7 +98,7 @@ def reqs_gen(rng, case):
 
 
 def mk(rng):
-    case = {'tree': tree_gen(rng), 'mount': rng.choice(['/', '/static', '/s', '/assets/v1', '/a']), 'omit': rng.choice([[], [], ['html'], ['html', 'txt'], ['js'], ['css', 'html', 'json']])}
+    case = {'tree': tree_gen(rng), 'mount': rng.choice(['/', '/static', '/s', '/assets/v1', '/a']), 'omit': rng.choice([[], [], ['html'], ['html', 'txt'], ['txt', 'html'], ['js'], ['css', 'html', 'json'], ['json', 'js', 'html', 'txt']])}
     if case['omit'] and rng.random() < 0.4: case['omit_dots'] = True          # the extensions handed over as ".html" (the builder trims the leading dot)
     case['reqs'] = reqs_gen(rng, case)
     return {'case': case}
@@ -121,6 +121,8 @@ def corpus():
             {'case': {'tree': base, 'mount': '/s', 'omit': [], 'reqs': reqs + [hx('/s/sub/shared/secret.txt'), hx('/s/sub/l.txt')], 'links': [['sub/shared', 'outside'], ['sub/l.txt', 'outside/secret.txt']]}},
             {'case': {'tree': [f(['docs', 'search-index.html'], 'SI'), f(['docs', 'a.txt'], 'T'), f(['myindex.html'], 'MI')], 'mount': '/site', 'omit': [], 'reqs': [hx(p) for p in ['/site/docs', '/site/docs/', '/site/docs/search-index.html', '/site', '/site/myindex.html', '/site/docs/index.html']]}},
             {'case': {'tree': [f(['noext'], 'x')], 'mount': '/s', 'omit': [], 'reqs': reqs[:3]}},
+            # one extension is taken off, once: notes.txt.html under omit [html, txt] answers at notes.txt, not at notes
+            {'case': {'tree': [f(['notes.txt.html'], 'N'), f(['lib.js.txt'], 'L')], 'mount': '/s', 'omit': ['html', 'txt'], 'reqs': [hx(p) for p in ['/s/notes.txt', '/s/notes', '/s/notes.txt.html', '/s/lib.js', '/s/lib', '/s/lib.js.txt']]}},
             {'case': {'tree': [f(['docs.html', 'index.html'], 'D')], 'mount': '/', 'omit': ['html'], 'reqs': [hx('/docs'), hx('/docs.html'), hx('/docs.html/index.html'), hx('/')]}},
             {'case': {'tree': [f(['index.html'], 'ROOT'), f(['e.txt'], '')], 'mount': '/', 'omit': [], 'reqs': [hx('/'), hx('/index.html'), hx('/e.txt'), hx('//')]}}]
 
